@@ -305,6 +305,11 @@ fn main() {
                 if let Some(Err(e)) = &a.generated {
                     *dist.entry(format!("codegen-error.{}", e.split(|c: char| !c.is_alphanumeric()).next().unwrap_or(""))).or_insert(0) += 1;
                 }
+                for t in &a.titles {
+                    // kind of diagnostic: the title up to the first quoted name
+                    let k: String = t.split('`').next().unwrap_or("").trim().chars().take(48).collect();
+                    *dist.entry(format!("diag.{}", k)).or_insert(0) += 1;
+                }
                 if a.generated.is_some() {
                     *dist.entry("codegen-runs".into()).or_insert(0) += 1;
                 }
